@@ -14,58 +14,135 @@ mod rt {
 
     const MSG: &str = "{\"data\":\"smoke\"}";
 
+    // the four shapes of a token: with / without footer, with / without implicit assertion (v3 / v4 only)
+    const SHAPES: [(Option<&str>, Option<&str>); 4] = [(None, None), (Some("kid-1"), None), (None, Some("tenant-1")), (Some("kid-1"), Some("tenant-1"))];
+
+    // set_implicit_assertion exists for v3 / v4 only: the protocol macros pass [None] (capable) or []
+    macro_rules! set_ia {
+        ([], $b:ident, $a:expr) => {};
+        ([$x:expr], $b:ident, $a:expr) => {
+            if let Some(a) = $a {
+                $b.set_implicit_assertion(ImplicitAssertion::from(a));
+            }
+        };
+    }
+    macro_rules! capable {
+        ([]) => { false };
+        ([$x:expr]) => { true };
+    }
+    macro_rules! core_open_local {
+        ([], $V:ident, $t:expr, $key:expr, $f:expr, $a:expr) => { Paseto::<$V, Local>::try_decrypt($t, $key, $f) };
+        ([$x:expr], $V:ident, $t:expr, $key:expr, $f:expr, $a:expr) => { Paseto::<$V, Local>::try_decrypt($t, $key, $f, $a) };
+    }
+    macro_rules! core_open_public {
+        ([], $V:ident, $t:expr, $key:expr, $f:expr, $a:expr) => { Paseto::<$V, Public>::try_verify($t, $key, $f) };
+        ([$x:expr], $V:ident, $t:expr, $key:expr, $f:expr, $a:expr) => { Paseto::<$V, Public>::try_verify($t, $key, $f, $a) };
+    }
+
     macro_rules! local_rt {
-        ($V:ident, $N:literal, $name:literal, [$($assert:expr),*]) => {{
+        ($V:ident, $N:literal, $name:literal, $cap:tt) => {{
             let key = PasetoSymmetricKey::<$V, Local>::from(Key::<32>::from([7u8; 32]));
-            #[cfg(feature = "batteries_included")]
-            let ok = {
-                let t = PasetoBuilder::<$V, Local>::default().set_claim(SubjectClaim::from("smoke")).build(&key).expect("build");
-                let mut p = PasetoParser::<$V, Local>::default();
-                let r = p.parse(&t, &key).map(|v| v["sub"] == "smoke").unwrap_or(false);
-                r
-            };
-            #[cfg(all(feature = "generic", not(feature = "batteries_included")))]
-            let ok = {
-                let t = GenericBuilder::<$V, Local>::default().set_claim(SubjectClaim::from("smoke")).try_encrypt(&key).expect("build");
-                let mut p = GenericParser::<$V, Local>::default();
-                let r = p.parse(&t, &key).map(|v| v["sub"] == "smoke").unwrap_or(false);
-                r
-            };
-            #[cfg(not(feature = "generic"))]
-            let ok = {
-                let nk = Key::<$N>::from([9u8; $N]);
-                let nonce = PasetoNonce::<$V, Local>::from(&nk);
-                let t = Paseto::<$V, Local>::builder().set_payload(Payload::from(MSG)).try_encrypt(&key, &nonce).expect("encrypt");
-                Paseto::<$V, Local>::try_decrypt(&t, &key, None $(, $assert)*).map(|m| m == MSG).unwrap_or(false)
-            };
+            let mut ok = true;
+            for (f, a) in SHAPES {
+                if a.is_some() && !capable!($cap) {
+                    continue;
+                }
+                #[cfg(feature = "batteries_included")]
+                let one = {
+                    let mut b = PasetoBuilder::<$V, Local>::default();
+                    b.set_claim(SubjectClaim::from("smoke"));
+                    if let Some(f) = f { b.set_footer(Footer::from(f)); }
+                    set_ia!($cap, b, a);
+                    let t = b.build(&key).expect("build");
+                    let mut p = PasetoParser::<$V, Local>::default();
+                    if let Some(f) = f { p.set_footer(Footer::from(f)); }
+                    set_ia!($cap, p, a);
+                    let r = p.parse(&t, &key).map(|v| v["sub"] == "smoke").unwrap_or(false);
+                    r
+                };
+                #[cfg(all(feature = "generic", not(feature = "batteries_included")))]
+                let one = {
+                    let mut b = GenericBuilder::<$V, Local>::default();
+                    b.set_claim(SubjectClaim::from("smoke"));
+                    if let Some(f) = f { b.set_footer(Footer::from(f)); }
+                    set_ia!($cap, b, a);
+                    let t = b.try_encrypt(&key).expect("build");
+                    let mut p = GenericParser::<$V, Local>::default();
+                    if let Some(f) = f { p.set_footer(Footer::from(f)); }
+                    set_ia!($cap, p, a);
+                    let r = p.parse(&t, &key).map(|v| v["sub"] == "smoke").unwrap_or(false);
+                    r
+                };
+                #[cfg(not(feature = "generic"))]
+                let one = {
+                    let nk = Key::<$N>::from([9u8; $N]);
+                    let nonce = PasetoNonce::<$V, Local>::from(&nk);
+                    let mut b = Paseto::<$V, Local>::builder();
+                    b.set_payload(Payload::from(MSG));
+                    if let Some(f) = f { b.set_footer(Footer::from(f)); }
+                    set_ia!($cap, b, a);
+                    let t = b.try_encrypt(&key, &nonce).expect("encrypt");
+                    core_open_local!($cap, $V, &t, &key, f.map(Footer::from), a.map(ImplicitAssertion::from)).map(|m| m == MSG).unwrap_or(false)
+                };
+                if !one {
+                    println!("{} footer={:?} assertion={:?} FAILED", $name, f, a);
+                }
+                ok = ok && one;
+            }
             println!("{} round-trip {}", $name, if ok { "ok" } else { "FAILED" });
             ok
         }};
     }
 
     macro_rules! public_rt {
-        ($V:ident, $name:literal, $sk:expr, $pk:expr, [$($assert:expr),*]) => {{
+        ($V:ident, $name:literal, $sk:expr, $pk:expr, $cap:tt) => {{
             let sk = $sk;
             let pk = $pk;
-            #[cfg(feature = "batteries_included")]
-            let ok = {
-                let t = PasetoBuilder::<$V, Public>::default().set_claim(SubjectClaim::from("smoke")).build(&sk).expect("build");
-                let mut p = PasetoParser::<$V, Public>::default();
-                let r = p.parse(&t, &pk).map(|v| v["sub"] == "smoke").unwrap_or(false);
-                r
-            };
-            #[cfg(all(feature = "generic", not(feature = "batteries_included")))]
-            let ok = {
-                let t = GenericBuilder::<$V, Public>::default().set_claim(SubjectClaim::from("smoke")).try_sign(&sk).expect("build");
-                let mut p = GenericParser::<$V, Public>::default();
-                let r = p.parse(&t, &pk).map(|v| v["sub"] == "smoke").unwrap_or(false);
-                r
-            };
-            #[cfg(not(feature = "generic"))]
-            let ok = {
-                let t = Paseto::<$V, Public>::builder().set_payload(Payload::from(MSG)).try_sign(&sk).expect("sign");
-                Paseto::<$V, Public>::try_verify(&t, &pk, None $(, $assert)*).map(|m| m == MSG).unwrap_or(false)
-            };
+            let mut ok = true;
+            for (f, a) in SHAPES {
+                if a.is_some() && !capable!($cap) {
+                    continue;
+                }
+                #[cfg(feature = "batteries_included")]
+                let one = {
+                    let mut b = PasetoBuilder::<$V, Public>::default();
+                    b.set_claim(SubjectClaim::from("smoke"));
+                    if let Some(f) = f { b.set_footer(Footer::from(f)); }
+                    set_ia!($cap, b, a);
+                    let t = b.build(&sk).expect("build");
+                    let mut p = PasetoParser::<$V, Public>::default();
+                    if let Some(f) = f { p.set_footer(Footer::from(f)); }
+                    set_ia!($cap, p, a);
+                    let r = p.parse(&t, &pk).map(|v| v["sub"] == "smoke").unwrap_or(false);
+                    r
+                };
+                #[cfg(all(feature = "generic", not(feature = "batteries_included")))]
+                let one = {
+                    let mut b = GenericBuilder::<$V, Public>::default();
+                    b.set_claim(SubjectClaim::from("smoke"));
+                    if let Some(f) = f { b.set_footer(Footer::from(f)); }
+                    set_ia!($cap, b, a);
+                    let t = b.try_sign(&sk).expect("build");
+                    let mut p = GenericParser::<$V, Public>::default();
+                    if let Some(f) = f { p.set_footer(Footer::from(f)); }
+                    set_ia!($cap, p, a);
+                    let r = p.parse(&t, &pk).map(|v| v["sub"] == "smoke").unwrap_or(false);
+                    r
+                };
+                #[cfg(not(feature = "generic"))]
+                let one = {
+                    let mut b = Paseto::<$V, Public>::builder();
+                    b.set_payload(Payload::from(MSG));
+                    if let Some(f) = f { b.set_footer(Footer::from(f)); }
+                    set_ia!($cap, b, a);
+                    let t = b.try_sign(&sk).expect("sign");
+                    core_open_public!($cap, $V, &t, &pk, f.map(Footer::from), a.map(ImplicitAssertion::from)).map(|m| m == MSG).unwrap_or(false)
+                };
+                if !one {
+                    println!("{} footer={:?} assertion={:?} FAILED", $name, f, a);
+                }
+                ok = ok && one;
+            }
             println!("{} round-trip {}", $name, if ok { "ok" } else { "FAILED" });
             ok
         }};
